@@ -18,7 +18,7 @@ VARIABLES l, c, x, bad
 NoCfg == [mode |-> "none"]
 CfgOf(r) ==
   IF r.mode = "E"
-  THEN [mode |-> "E", prior |-> r.prior, dims |-> r.dims, wr |-> r.wr, w |-> r.w, st |-> Stencil(r.wr, r.w), kappa |-> r.kappa,
+  THEN [mode |-> "E", prior |-> r.prior, dims |-> r.dims, wr |-> r.wr, w |-> r.w, st |-> Stencil(r.wr, r.w), nb |-> NbTable(r.dims, Stencil(r.wr, r.w)), kappa |-> r.kappa,
         beta |-> r.beta, gamma |-> r.gamma, eps |-> r.eps, convex |-> r.convex]
   ELSE [mode |-> "F", prior |-> r.prior, dims |-> r.dims, wr |-> r.wr, hasKappa |-> r.hasKappa, only2D |-> r.only2D, convex |-> r.convex,
         betaCeil |-> r.betaCeil, wsum |-> r.wsum, kmax2 |-> r.kmax2]
